@@ -352,3 +352,45 @@ Definition build_url (keep : bool) (base raw : bytes) (rp cp : list param) (cq r
    [build_url false] is the pinned code *)
 Definition parse_request_url := build_url true.
 Definition parse_request_url_pinned := build_url false.
+
+(* ---------- specification-level vocabulary for the theorems ---------- *)
+(* a template as a list of tokens: literal text without braces, or {key} with a brace-free key *)
+Inductive ttok := TLit (s : bytes) | THole (k : bytes).
+
+Definition brace_free (s : bytes) : bool := negb (mem_byte lbrace s) && negb (mem_byte rbrace s).
+Definition wf_tok (t : ttok) : bool := match t with TLit s => brace_free s | THole k => brace_free k end.
+Definition tok_text (t : ttok) : bytes := match t with TLit s => s | THole k => placeholder k end.
+Definition render_toks (ts : list ttok) : bytes := concat (map tok_text ts).
+
+(* map lookup: the first binding of the key *)
+Fixpoint lookup (k : bytes) (kvs : list param) : option bytes :=
+  match kvs with
+  | [] => None
+  | (k', v) :: r => if bytes_eqb k' k then Some v else lookup k r
+  end.
+
+(* what the caller described for one token *)
+Definition fill (kvs : list param) (t : ttok) : bytes :=
+  match t with
+  | TLit s => s
+  | THole k => match lookup k kvs with Some v => path_escape v | None => placeholder k end
+  end.
+
+(* the query string as a server reads it: pairs split at '&', key and value at the first '=' *)
+Definition parse_pair (p : bytes) : option (bytes * bytes) :=
+  let '(k, v) := cut_at "="%byte p in
+  match unescape EQuery k, unescape EQuery (match v with Some x => x | None => [] end) with
+  | Some dk, Some dv => Some (dk, dv)
+  | _, _ => None
+  end.
+Fixpoint all_some {A} (l : list (option A)) : option (list A) :=
+  match l with
+  | [] => Some []
+  | Some x :: r => match all_some r with Some t => Some (x :: t) | None => None end
+  | None :: _ => None
+  end.
+Definition parse_query (s : bytes) : option (list (bytes * bytes)) :=
+  match s with
+  | [] => Some []
+  | _ => all_some (map parse_pair (split_byte "&"%byte s))
+  end.
